@@ -90,4 +90,15 @@ Definition mjx_kb (refsafe : bool) (h s0 s1 dmax : T) : T * T :=
   (if s0 <=? nzero then (- s0) / (dm * dm) else none / (dm * dm * tc * tc * s1 * s1),
    if s1 <=? nzero then (- s1) / dm else ntwo / (dm * tc)).
 
+(* ---- tail of the actuation stage for one dof (C mj_fwdActuation, MJX forward.fwd_actuation): the joint-space actuator force `frc`
+     (moment' * actuator_force), then the gravity-compensation force when the joint has actuatorgravcomp, THEN the clamp to actuatorfrcrange *)
+Definition clipT (x lo hi : T) : T := if x <? lo then lo else if hi <? x then hi else x.
+Definition act_tail (frc gc : T) (actgravcomp limited : bool) (lo hi : T) : T :=
+  let t := if actgravcomp then frc + gc else frc in
+  if limited then clipT t lo hi else t.
+(* the other order (clamp, then add): NOT what either engine does *)
+Definition act_tail_swapped (frc gc : T) (actgravcomp limited : bool) (lo hi : T) : T :=
+  let t := if limited then clipT frc lo hi else frc in
+  if actgravcomp then t + gc else t.
+
 End MK.
